@@ -181,6 +181,12 @@ class TermAlg:
             return bool(v.d)
         if isinstance(v, (Rec, Key)):
             return True
+        if isinstance(v, Rat):
+            c = v.as_const()
+            if c is not None:
+                return c != 0
+        if isinstance(v, tuple) and v and v[0] == "str":
+            return v[1] != ""
         raise Undecidable("cannot decide the truth of %s in %s" % (norm(node) if node is not None else v, self.fstack[-1].key))
 
     def stmt(self, s, env):
